@@ -181,6 +181,10 @@ class dtype:
 
     @property
     def itemsize(self):
+        if self.symbolic:
+            t = _ITEMSIZE(core.term(self.code))
+            cur().add(z3.And(t >= 1, t <= 8)) if core.active() else None
+            return SV(t, "i")
         return {"bool": 1, "int8": 1, "int16": 2, "int32": 4, "int64": 8, "uint8": 1, "uint16": 2,
                 "uint32": 4, "uint64": 8, "float16": 2, "float32": 4, "float64": 8}[self.code]
 
@@ -201,6 +205,7 @@ class dtype:
 
 
 _dtype_cls = dtype
+_ITEMSIZE = z3.Function("np_itemsize", z3.IntSort(), z3.IntSort())
 
 
 class _AbstractType:
@@ -279,7 +284,7 @@ def _promote(a, b):
     ta, tb = core.term(a.idx()), core.term(b.idx())
     t = _PROMOTE(ta, tb)
     p = cur()
-    key = ("promote", ta.get_id(), tb.get_id())
+    key = ("promote", core.tid(ta), core.tid(tb))
     if key not in p.counter:
         p.counter[key] = 1
         p.add(z3.Implies(z3.And(ta >= 1, tb >= 1), z3.And(t >= 1, t <= _py_len(CODES) - 1)))
@@ -544,6 +549,12 @@ class ndarray:
                 step = 1 if step is None else step
                 if _py_isinstance(step, SV) or step == 0:
                     raise Undecided("symbolic slice step")
+                if step == 1 and (start is None or (_py_isinstance(start, int) and start == 0)) and stop is None:
+                    # full axis: same extent, identity map, no region guard needed
+                    plan.append(("full", 0, 1, _py_len(new_shape)))
+                    new_shape.append(n)
+                    ax += 1
+                    continue
                 if step > 0:
                     start = 0 if start is None else _norm_bound(start, n)
                     stop = n if stop is None else _norm_bound(stop, n)
@@ -580,6 +591,8 @@ class ndarray:
             for p in plan:
                 if p[0] == "fix":
                     base.append(p[1])
+                elif p[0] == "full":
+                    base.append(idx[p[3]])
                 else:
                     base.append(p[1] + idx[p[3]] * p[2] if p[2] != 1 else p[1] + idx[p[3]])
             return m_old(tuple(base))
@@ -595,6 +608,8 @@ class ndarray:
             for p, o in zip(plan, own_old):
                 if p[0] == "fix":
                     conds.append(o == p[1])
+                elif p[0] == "full":
+                    new_idx[p[3]] = o
                 else:
                     if p[2] != 1:
                         raise Undecided("write through a strided view")
@@ -888,7 +903,7 @@ def _rowmap(mask):
         r = SV.lift(r)
         j = SV(f(r.t), "i")
         p2 = cur()
-        k2 = ("selax", f.name(), z3.simplify(r.t).get_id())
+        k2 = ("selax", f.name(), core.tid(z3.simplify(r.t)))
         if k2 not in p2.counter:
             p2.counter[k2] = 1
             inr = z3.And(r.t >= 0, r.t < core.term(count))
@@ -1651,7 +1666,23 @@ def nansum(a, axis=None):
     return _reduction("nansum", a, axis)
 
 
-_QFACTS = {}
+class _PerPath:
+    """np.all/np.any facts of the current path only"""
+
+    def _d(self):
+        return cur().counter.setdefault("@qfacts", {})
+
+    def values(self):
+        return self._d().values()
+
+    def get(self, k):
+        return self._d().get(k)
+
+    def __setitem__(self, k, v):
+        self._d()[k] = v
+
+
+_QFACTS = _PerPath()
 
 
 def _quant(a, is_all):
@@ -1671,7 +1702,7 @@ def _quant(a, is_all):
         p.add(z3.Implies(z3.Not(r.t), z3.And(rng, z3.Not(wv))))
     else:
         p.add(z3.Implies(r.t, z3.And(rng, wv)))
-    _QFACTS[r.t.get_id()] = (r, e, sh, is_all)
+    _QFACTS[core.tid(r.t)] = (r, e, sh, is_all)
     return r
 
 
@@ -1758,7 +1789,7 @@ def argsort(a, axis=-1):
         r = SV.lift(idx[0])
         t = f(lam, nt, r.t)
         p2 = cur()
-        k2 = ("argsortax", t.get_id())
+        k2 = ("argsortax", core.tid(t))
         if k2 not in p2.counter:
             p2.counter[k2] = 1
             p2.add(z3.Implies(z3.And(r.t >= 0, r.t < nt), z3.And(t >= 0, t < nt)))
